@@ -1,1 +1,195 @@
-"""placeholder"""
+"""C09 - wire codec: writer/reader schema agreement of MQ.frames2topicmsgs / MQ.topicmsgs2frames (no pixel values)."""
+
+from __future__ import annotations
+
+import ast
+import re
+
+from . import rule
+from ..model import Unresolved, walk_scope, parent, enclosing_function, qualname
+from ..paths import U, Path, Evaluator
+from .. import q
+
+MQF = 'openfilter/filter_runtime/mq.py'
+FR = 'openfilter/filter_runtime/frame.py'
+
+
+def writer_reader(repo):
+    mod, w = repo.find(f'{MQF}::MQ.frames2topicmsgs')
+    _, r = repo.find(f'{MQF}::MQ.topicmsgs2frames')
+    return mod, w, r
+
+
+def writer_envelope(w):
+    """-> (frame loop var, {role: index}, enc name, list node)"""
+    for n in ast.walk(w):
+        if isinstance(n, ast.Dict):
+            for k, v in zip(n.keys, n.values):
+                if k is not None and q.const_str(k) == 'img' and isinstance(v, ast.List):
+                    roles = {}
+                    for i, e in enumerate(v.elts):
+                        if isinstance(e, ast.Attribute) and e.attr in ('height', 'width', 'format'):
+                            roles[e.attr] = i
+                        elif isinstance(e, ast.Name):
+                            roles['enc:' + e.id] = i
+                    return roles, v
+    raise Unresolved(f"{MQF}: frames2topicmsgs builds no {{'img': [...]}} envelope")
+
+
+def reader_xtra_name(r):
+    """the local that holds envelope['img'] in the reader"""
+    for n in ast.walk(r):
+        if isinstance(n, ast.Assign) and len(n.targets) == 1 and isinstance(n.targets[0], ast.Name):
+            if any(isinstance(s, ast.Subscript) and q.const_str(s.slice) == 'img' for s in ast.walk(n.value)):
+                return n.targets[0].id
+    raise Unresolved(f"{MQF}: topicmsgs2frames never reads envelope['img']")
+
+
+@rule('C09.R1', "envelope fields: the reader uses index 0 as height, 1 as width, 2 as format, 3 as encoding - exactly where the writer put them; the encodings written are the ones the reader distinguishes")
+def r1(rr, repo):
+    mod, w, r = writer_reader(repo)
+    wroles, wlist = writer_envelope(w)
+    enc = [k for k in wroles if k.startswith('enc:')]
+    rr.ob('the writer envelope is [height, width, format, encoding]', {'height', 'width', 'format'} <= set(wroles) and len(enc) == 1 and len(wlist.elts) == 4, mod, wlist, witness=U(wlist), key='writer-shape')
+    X = reader_xtra_name(r)
+    idx = lambda node: node.slice.value if isinstance(node, ast.Subscript) and U(node.value) == X and isinstance(node.slice, ast.Constant) else None
+    rroles = {}   # role -> set of indices the reader uses for it
+    fmod, fb = repo.find(f'{FR}::Frame.from_blob')
+    fparams = q.func_params(fb)
+    cls = repo.find(f'{FR}::Frame')[1]
+    alias = {st.targets[0].id: U(st.value) for st in cls.body if isinstance(st, ast.Assign) and isinstance(st.targets[0], ast.Name) and isinstance(st.value, ast.Name)}
+    n_sites = 0
+    for c in q.calls_in(r):
+        f = U(c.func)
+        if f.startswith('Frame.') and alias.get(f[6:], f[6:]) == 'from_blob':
+            for i, a in enumerate(c.args):
+                if idx(a) is not None and i < len(fparams):
+                    rroles.setdefault(fparams[i], set()).add(idx(a))
+                    n_sites += 1
+            for k in c.keywords:
+                if idx(k.value) is not None:
+                    rroles.setdefault(k.arg, set()).add(idx(k.value))
+        elif f == 'Frame' and len(c.args) >= 3 and idx(c.args[2]) is not None:
+            rroles.setdefault('format', set()).add(idx(c.args[2]))
+            n_sites += 1
+        elif f.endswith('.reshape') and c.args:
+            shp = c.args[0]
+            for t in ([shp.body, shp.orelse] if isinstance(shp, ast.IfExp) else [shp]):
+                if isinstance(t, ast.Tuple) and len(t.elts) >= 2:
+                    if idx(t.elts[0]) is not None:
+                        rroles.setdefault('height', set()).add(idx(t.elts[0]))
+                    if idx(t.elts[1]) is not None:
+                        rroles.setdefault('width', set()).add(idx(t.elts[1]))
+                    n_sites += 1
+                elif isinstance(t, ast.Subscript) and U(t.value) == X and isinstance(t.slice, ast.Slice):
+                    lo = t.slice.lower.value if isinstance(t.slice.lower, ast.Constant) else 0
+                    hi = t.slice.upper.value if isinstance(t.slice.upper, ast.Constant) else None
+                    if hi is not None and hi - lo == 2:
+                        rroles.setdefault('height', set()).add(lo)
+                        rroles.setdefault('width', set()).add(lo + 1)
+                        n_sites += 1
+    enc_lits = set()
+    for n in ast.walk(r):
+        if isinstance(n, ast.Compare) and len(n.ops) == 1 and isinstance(n.ops[0], (ast.Eq, ast.NotEq)) and idx(n.left) is not None and q.const_str(n.comparators[0]) is not None:
+            lit = n.comparators[0].value
+            if lit in ('raw', 'jpg'):
+                rroles.setdefault('enc', set()).add(idx(n.left))
+                enc_lits.add(lit)
+            else:
+                rroles.setdefault('format', set()).add(idx(n.left))
+    rr.floor('reader sites that use an envelope index', n_sites, 4, mod, r)
+    for role in ('height', 'width', 'format'):
+        rr.ob(f'reader index of {role} == writer index of {role}', rroles.get(role) == {wroles.get(role)}, mod, r, witness=f'reader {sorted(rroles.get(role, ()))} writer {wroles.get(role)}', key=f'index|{role}')
+    rr.ob('reader index of the encoding == writer index', bool(enc) and rroles.get('enc') == {wroles[enc[0]]}, mod, r, witness=f'reader {sorted(rroles.get("enc", ()))}', key='index|enc')
+    # encodings written
+    wl = set()
+    encname = enc[0][4:] if enc else None
+    for n in ast.walk(w):
+        if isinstance(n, ast.Assign) and any(isinstance(t, ast.Name) and t.id == encname for t in n.targets) and isinstance(n.value, ast.IfExp):
+            wl = {q.const_str(n.value.body), q.const_str(n.value.orelse)}
+    rr.ob("the writer names exactly the encodings 'jpg' and 'raw'; the reader tests one of them and treats the other as the alternative", wl == {'jpg', 'raw'} and len(enc_lits) == 1 and enc_lits <= wl, mod, w, witness=f'writer {sorted(x for x in wl if x)} reader tests {sorted(enc_lits)}', key='enc-literals')
+    # the alternative branch of the reader decodes with from_jpg when it tested 'raw'
+    for n in ast.walk(r):
+        if isinstance(n, ast.IfExp) and isinstance(n.test, ast.Compare) and idx(n.test.left) is not None and q.const_str(n.test.comparators[0]) == 'raw':
+            ok = 'np.frombuffer' in U(n.body) and 'from_jpg' in U(n.orelse) or 'from_blob' in U(n.orelse)
+            rr.ob("'raw' is decoded from the buffer with the declared shape, otherwise through the jpg decoder", ok, mod, n, key='enc-branches')
+    fmts = q.class_consts(cls).get('FORMATS')
+    rr.ob("the reader's 2-D / 3-channel rule covers Frame.FORMATS ('GRAY' is the only 2-D format)", isinstance(fmts, tuple) and 'GRAY' in fmts and set(fmts) - {'GRAY'} == {'RGB', 'BGR'} and 'format' in rroles, fmod, cls, witness=str(fmts), key='formats')
+
+
+@rule('C09.R2', 'message layout: the list shapes the writer emits are exactly the ones the reader accepts, with the data part and the image at the indices the reader decodes')
+def r2(rr, repo):
+    mod, w, r = writer_reader(repo)
+    shapes = []
+    for n in ast.walk(w):
+        if isinstance(n, ast.Assign) and any(isinstance(t, ast.Name) and t.id == 'msg' for t in n.targets):
+            vals = [n.value.body, n.value.orelse] if isinstance(n.value, ast.IfExp) else [n.value]
+            for v in vals:
+                if isinstance(v, ast.List):
+                    shapes.append((v, n))
+    rr.floor('list shapes emitted by the writer', len(shapes), 4, mod, w)
+    # reader constants
+    didx = None
+    for n in ast.walk(r):
+        if isinstance(n, ast.Assign) and isinstance(n.value, ast.IfExp) and isinstance(n.value.body, ast.Constant) and isinstance(n.value.orelse, ast.Constant) \
+                and isinstance(n.value.body.value, int) and len(n.targets) == 1 and isinstance(n.targets[0], ast.Name):
+            didx = (n.targets[0].id, n.value.body.value, n.value.orelse.value, U(n.value.test))
+    if didx is None:
+        raise Unresolved(f'{MQF}: topicmsgs2frames has no `dataidx = A if <has image> else B`')
+    name, with_img, without_img, test = didx
+    img_idx = {s.slice.value for c in q.calls_in(r) for s in ast.walk(c) if isinstance(s, ast.Subscript) and U(s.value) == 'msg' and isinstance(s.slice, ast.Constant) and isinstance(s.slice.value, int) and s.slice.value > 0}
+    toolong = [n for n in ast.walk(r) if isinstance(n, ast.If) and any(isinstance(x, ast.Raise) for x in n.body) and name in U(n.test) and '+ 1' in U(n.test)]
+    rr.ob('the reader rejects a message longer than data index + 1', bool(toolong), mod, r, key='too-long')
+    dataread = [n for n in ast.walk(r) if isinstance(n, ast.IfExp) and f'msg[{name}]' in U(n.body) and name in U(n.test) and isinstance(n.orelse, ast.Constant) and n.orelse.value is None]
+    rr.ob('the reader decodes msg[dataidx] iff the message is long enough, else data is None (-> {})', bool(dataread) and 'json_loads' in U(dataread[0].body), mod, r, key='data-read')
+    for v, st in shapes:
+        first = v.elts[0]
+        has_img = not (isinstance(first, ast.Constant) and first.value is None)
+        names = [U(e) for e in v.elts]
+        want_didx = with_img if has_img else without_img
+        pos_data = names.index('data') if 'data' in names else None
+        ok = (pos_data is None and len(names) == want_didx) or (pos_data == want_didx and len(names) == want_didx + 1)
+        rr.ob(f'writer shape {names}: data sits at the index the reader decodes ({want_didx}) and the length is one the reader accepts', ok, mod, v, witness=f'dataidx={want_didx}', key=f'shape|{len(names)}|{has_img}')
+        if has_img:
+            rr.ob('the image part is at index 1, where the reader takes it', len(names) >= 2 and names[1] == 'img' and img_idx == {1}, mod, v, witness=str(sorted(img_idx)), key=f'img-index|{len(names)}')
+    # the data part is omitted exactly when it is empty
+    dn = [n for n in ast.walk(w) if isinstance(n, ast.Assign) and any(isinstance(t, ast.Name) and t.id == 'data' for t in n.targets)]
+    okd = bool(dn) and isinstance(dn[0].value, ast.IfExp) and U(dn[0].value.test) == 'frame.data' and isinstance(dn[0].value.orelse, ast.Constant) and dn[0].value.orelse.value is None and 'json_dumps(frame.data' in U(dn[0].value.body)
+    rr.ob('the data part is json of frame.data, omitted (None) exactly when frame.data is empty', okd, mod, dn[0] if dn else w, key='data-omitted')
+
+
+@rule('C09.R3', 'encoding choice: jpg iff (frame.has_jpg when outputs_jpg is None, else outputs_jpg); the jpg branch sends frame.jpg, the raw branch the image buffer itself')
+def r3(rr, repo):
+    mod, w, r = writer_reader(repo)
+    param = q.func_params(w)[1]
+    dj = [n for n in ast.walk(w) if isinstance(n, ast.NamedExpr) and isinstance(n.value, ast.IfExp) and 'has_jpg' in U(n.value)]
+    rr.floor('encoding decisions in the writer', len(dj), 1, mod, w)
+    for n in dj:
+        v = n.value
+        ok = U(v.body) == 'frame.has_jpg' and U(v.test) == f'{param} is None' and U(v.orelse) == param
+        rr.ob('do_jpg = frame.has_jpg if outs_jpg is None else outs_jpg', ok, mod, n, witness=U(v), key='do-jpg')
+        name = n.target.id
+        imgs = [a for a in ast.walk(w) if isinstance(a, ast.Assign) and any(isinstance(t, ast.Name) and t.id == 'img' for t in a.targets)]
+        oki = bool(imgs) and isinstance(imgs[0].value, ast.IfExp) and U(imgs[0].value.test) == name and U(imgs[0].value.body) == 'frame.jpg' and 'frame.image' in U(imgs[0].value.orelse)
+        rr.ob('img = frame.jpg if do_jpg else <buffer of frame.image>', oki, mod, imgs[0] if imgs else w, key='img-choice')
+        encs = [a for a in ast.walk(w) if isinstance(a, ast.Assign) and isinstance(a.value, ast.IfExp) and q.const_str(a.value.body) == 'jpg']
+        oke = bool(encs) and (U(encs[0].value.test) == name or (isinstance(encs[0].value.test, ast.NamedExpr) and encs[0].value.test.target.id == name)) and q.const_str(encs[0].value.orelse) == 'raw'
+        rr.ob("the declared encoding is 'jpg' under the same decision and 'raw' otherwise", oke, mod, encs[0] if encs else w, key='enc-choice')
+    noimg = [n for n in ast.walk(w) if isinstance(n, ast.If) and 'has_image' in U(n.test)]
+    rr.ob('a frame without image sends no image part (has_image tested before any image access)', bool(noimg), mod, w, key='no-image')
+
+
+@rule('C09.R4', 'decoding asserts the declared shape: Frame.image (lazy) and Frame.from_blob compare the decoded shape with the declared one')
+def r4(rr, repo):
+    fmod, img = repo.find(f'{FR}::Frame.image')
+    _, fb = repo.find(f'{FR}::Frame.from_blob')
+    a1 = [n for n in ast.walk(img) if isinstance(n, ast.Assert)]
+    ok1 = any('image.shape' in U(a.test) and '__shapef[0]' in U(a.test) and isinstance(a.test, ast.Compare) and isinstance(a.test.ops[0], ast.Eq) for a in a1)
+    rr.ob('Frame.image asserts decoded shape == declared shape', ok1, fmod, img, key='assert-image')
+    a2 = [n for n in ast.walk(fb) if isinstance(n, ast.Assert)]
+    ok2 = any('image.shape[:2]' in U(a.test) and '(height, width)' in U(a.test) for a in a2)
+    rr.ob('Frame.from_blob asserts decoded (rows, cols) == (height, width) when dimensions were declared', ok2, fmod, fb, key='assert-from-blob')
+    # declared shape of a jpg-only frame is (height, width[, 3]) in that order
+    st = [n for n in ast.walk(fb) if isinstance(n, ast.Assign) and any('__shapef' in U(t) for t in n.targets) and 'height' in U(n.value)]
+    ok3 = bool(st) and '(height, width) if format == \'GRAY\' else (height, width, 3)' in U(st[0].value)
+    rr.ob('a jpg-only frame declares its shape as (height, width) / (height, width, 3)', ok3, fmod, st[0] if st else fb, key='declared-shape')
